@@ -419,6 +419,8 @@ func runC14(c *report.Ctx) {
 	ruleChildPure(c)
 	ruleParsedKeyFixedWidth(c)
 	ruleNoAppendToKeyFields(c)
+	ruleSetNetRepoints(c)
+	ruleMasterAcceptsEverySeed(c)
 }
 
 // edgeAtoms returns the atom of edge from→to.
